@@ -40,6 +40,8 @@ def _post_init(self):
     # a post_init may also use what labtech itself has derived for the task by then
     object.__setattr__(self, 'derived_key', getattr(self, 'cache_key', '<no cache_key yet>'))
     object.__setattr__(self, 'derived_is_task', labtech.is_task(self))
+    # derived helpers need not be picklable themselves: they are derived again wherever the task goes
+    object.__setattr__(self, 'helper', lambda: self.derived)
 
 
 def _mk(name, module, *, fields=('p',), extra=None, bases=(), annotations=None, **opts):
@@ -103,6 +105,11 @@ NFoo = _mk('NFoo', __name__, cache=None, extra={'post_init': _normalising_post_i
 import typing as _typing  # noqa: E402
 CVFoo = _mk('CVFoo', __name__, annotations={'REGISTRY': _typing.ClassVar[set], 'GRID': _typing.ClassVar[list], 'BASELINE': _typing.ClassVar[Any]},
             extra={'REGISTRY': {1, 2}, 'GRID': [1, 2], 'BASELINE': Leaf(v='baseline')})
+
+# two task types, one's name a prefix of the other's, configured with the very same cache object
+_SHARED_FIT_CACHE = labtech.cache.PickleCache(pickle_protocol=4)
+ShFit = _mk('ShFit', __name__, cache=_SHARED_FIT_CACHE)
+ShFitAll = _mk('ShFitAll', __name__, cache=_SHARED_FIT_CACHE)
 
 # module-level types whose names are legal non-ASCII identifiers (every key of such a type must be usable)
 Modèle = _mk('Modèle', __name__, fields=('p', 'q'))
